@@ -47,6 +47,7 @@ def obligations(tier):
                   funcs=("chartparse.chart.Chart.from_file (whole pipeline, native execution)",),
                   bounds="30/120/400 parses in one fresh interpreter alternating two of four texts that share every tick but differ in tempo map / resolution, "
                          "each chart dropped at once (freed objects, recycled addresses): every parse identical to the first parse of its text"))
+    obs += _e2e("C12", [1])
     return obs
 
 
